@@ -474,7 +474,11 @@ def replay_for_verus(pid, r, f):
     """Run the unit's replay scenario (a test against the real crate) if it has one."""
     from units import registry
     spec = registry.VERUS.get(r["unit"], {})
-    scen = spec.get("scenarios", {}).get(f["item"]) or spec.get("scenario")
+    scen = None
+    for (rx, name) in spec.get("scenarios_by_clause", []):
+        if re.search(rx, f.get("sig", "")):
+            scen = name
+    scen = scen or spec.get("scenarios", {}).get(f["item"]) or spec.get("scenario")
     pb = spec.get("playback_scenarios", {}).get(f["item"])
     if pb and not scen:
         crate, test = pb
